@@ -411,3 +411,122 @@ def traversal_setup(rep, F, cg):
         ok = a is not None and a == b
         rep.add('SIBLING', 'sibling:%s' % h, 'Memfs::%s and Stdfs::%s configure the traversal identically' % (h, h), ok, '', '' if ok else '%s vs %s' % (a, b))
     rep.rule('SIBLING', 'mirrored functions of the two backends agree on the compared elements')
+
+
+def mode_selection(rep, F, cg, rule='MODE-SEL'):
+    """exhaustive evaluation (8 input combinations) of the pure boolean slice that derives dir_mode / file_mode from CopyOpts"""
+    import itertools, boolslice
+    from mir import place_key
+    rep.rule(rule, 'in both _copy implementations the pure slice computing the two Option<u32> mode selections from (cp.mode is Some, cp.cdirs, cp.cfiles) is '
+             'evaluated for all 8 input combinations: one selection is Some exactly when mode && (cdirs || !cfiles) and flows to directory creation, the '
+             'other exactly when mode && (cfiles || !cdirs) and flows to the file mode; both backends have the same two tables')
+    want_d = {k: ('Some' if k[0] and (k[1] or not k[2]) else 'None') for k in itertools.product((0, 1), repeat=3)}
+    want_f = {k: ('Some' if k[0] and (k[2] or not k[1]) else 'None') for k in itertools.product((0, 1), repeat=3)}
+    for be, fn in (('memfs', '<sys::fs::memfs::vfs::Memfs>::_copy'), ('stdfs', '<sys::fs::stdfs::Stdfs>::_copy')):
+        if fn not in F.bodies:
+            rep.add(rule, 'modesel:%s' % be, '%s exists' % fn, False, detail='anchor missing')
+            continue
+        B = cg.body(fn)
+        ps = [l for l in range(1, B.nargs + 1) if B.local_ty(l) == 'sys::fs::copy::CopyOpts']
+        if not ps:
+            rep.add(rule, 'modesel:%s' % be, '%s takes the CopyOpts by value' % fn, False, '%s:%d' % (B.file, B.line), 'no CopyOpts parameter found')
+            continue
+        P = ps[0]
+        start = None
+        for i in sorted(B.normal, key=lambda x: len(B.dom[x])):
+            for st in B.blocks[i]['stmts']:
+                if st['k'] == 'assign' and st['rv']['k'] == 'discr' and place_key(st['rv']['place']) == '_%d.mode' % P and start is None:
+                    start = i
+        if start is None:
+            rep.add(rule, 'modesel:%s' % be, '%s branches on cp.mode' % fn, False, '%s:%d' % (B.file, B.line), 'no read of discriminant(cp.mode)')
+            continue
+        tables = {}
+        for m, cd, cf in itertools.product((0, 1), repeat=3):
+            env, stop = boolslice.run(B, start, {'discr:_%d.mode' % P: m, '_%d.cdirs' % P: cd, '_%d.cfiles' % P: cf})
+            for l, v in env.items():
+                if B.local_ty(l) == 'std::option::Option<u32>' and v in ('Some', 'None'):
+                    tables.setdefault(l, {})[(m, cd, cf)] = v
+        full = {l: t for l, t in tables.items() if len(t) == 8}
+        d_locals = [l for l, t in full.items() if t == want_d]
+        f_locals = [l for l, t in full.items() if t == want_f]
+        shown = {('_%d' % l): ''.join('S' if t[k] == 'Some' else 'N' for k in sorted(t)) for l, t in full.items()}
+        ok = len(d_locals) >= 1 and len(f_locals) >= 1
+        # roles: the directory selection reaches the mkdir call, the file selection the file-mode write
+        role_ok = True
+        why = ''
+        if ok:
+            def reaches(src_locals, pred):
+                for i, t in B.calls():
+                    if pred(t):
+                        for a in t['args']:
+                            for r in B.op_origins(a):
+                                if r[0] == 'agg':
+                                    pass
+                            l0 = op_local(a)
+                        # provenance through Option::or / unwrap_or / the `if let Some(mode)` payload
+                        roots = set()
+                        for a in t['args']:
+                            roots |= _locals_feeding(B, a)
+                        if roots & set(src_locals):
+                            return True
+                return False
+            d_ok = reaches(d_locals, lambda t: (callee_of(t) or '').split('::')[-1] in ('_mkdir_m', 'mkdir_m'))
+            f_ok = reaches(f_locals, lambda t: (callee_of(t) or '').split('::')[-1] in ('set_mode', 'from_mode'))
+            role_ok = d_ok and f_ok
+            why = 'dir selection reaches mkdir: %s, file selection reaches the file mode write: %s' % (d_ok, f_ok)
+        rep.add(rule, 'modesel:%s' % be, '%s selects the dir / file modes as documented (truth tables over mode, cdirs, cfiles)' % fn, ok and role_ok, B.loc(start),
+                '' if (ok and role_ok) else '%s computes the selections %s (order mode,cdirs,cfiles = 000..111); documented: dirs NNNNSNSS, files NNNNSSNS; %s' % (fn, shown, why),
+                [str(shown)])
+
+
+def _locals_feeding(B, o, depth=0, seen=None):
+    """locals from which the operand's value may derive (through moves, Option::or / unwrap_or / map, payload projections)"""
+    if seen is None:
+        seen = set()
+    p = op_place(o)
+    if p is None:
+        return seen
+    l = p['l']
+    if l in seen or depth > 12:
+        return seen
+    seen.add(l)
+    for d in B.defs.get(l, []):
+        if d[0] == 'call':
+            for a in d[3]['args']:
+                _locals_feeding(B, a, depth + 1, seen)
+        else:
+            rv = d[4]
+            if rv['k'] in ('use', 'cast'):
+                _locals_feeding(B, rv['op'], depth + 1, seen)
+            elif rv['k'] in ('ref', 'copyforderef', 'discr'):
+                _locals_feeding(B, {'k': 'copy', 'place': rv['place']}, depth + 1, seen)
+            elif rv['k'] == 'aggregate':
+                for a in rv['ops']:
+                    _locals_feeding(B, a, depth + 1, seen)
+    return seen
+
+
+def copy_parent_mode(rep, F, cg, rule='PARENT-MODE'):
+    import re
+    from panics import skey_call, sdesc_operand
+    rep.rule(rule, 'when a file is copied to a destination whose parent directory is missing, both _copy implementations create that parent with the selected '
+             'directory mode or else with the mode of the SOURCE file\'s parent directory: a mode(<entry of dir(path(src))>) value feeds the mkdir of dir(dst_path)')
+    res = {}
+    for be, fn in (('memfs', '<sys::fs::memfs::vfs::Memfs>::_copy'), ('stdfs', '<sys::fs::stdfs::Stdfs>::_copy')):
+        if fn not in F.bodies:
+            rep.add(rule, 'parentmode:%s' % be, '%s exists' % fn, False, detail='anchor missing')
+            continue
+        B = cg.body(fn)
+        src_parent_modes = [t['dest']['l'] for i, t in B.calls() if re.match(r'^mode\(.*dir\(path\(', skey_call(B, t))]
+        ok = False
+        for i, t in B.calls():
+            k = skey_call(B, t)
+            if re.match(r'^_?mkdir_m\(', k) and re.search(r'dir\(var<PathBuf>\)\?', k):
+                feeding = set()
+                for a in t['args']:
+                    feeding |= _locals_feeding(B, a)
+                if feeding & set(src_parent_modes):
+                    ok = True
+        res[be] = ok
+        rep.add(rule, 'parentmode:%s' % be, '%s creates a missing destination parent with the source parent\'s mode when no directory mode is selected' % fn, ok,
+                '%s:%d' % (B.file, B.line), '' if ok else '%s does not pass the mode of the source file\'s parent directory to the mkdir of the destination parent: auto-created directories get another mode than on the other backend' % fn)
